@@ -244,6 +244,13 @@ func c06Corpus(r *fw.Rec, s corpus.Source) {
 		r.Inconclusive("source unavailable")
 		return
 	}
+	// translations given up while an instruction is being typed come first: the
+	// types of the next module must not depend on what a failed one left behind
+	// (pooled index lists, memo tables filled half-way)
+	for _, bad := range c06FailWhileTyping {
+		parseGuard("c06-fails-while-typing", bad)
+	}
+	r.TallyN("inputs", "translations-failing-while-typing-before-the-module", len(c06FailWhileTyping))
 	m, perr, pmsg := parseGuard(s.ID, text)
 	if pmsg != "" || perr != nil {
 		r.Tally("inputs", "corpus-not-accepted-by-parser(C01 business)")
@@ -305,6 +312,17 @@ func c06Corpus(r *fw.Rec, s corpus.Source) {
 
 // dishonestTypeName reports a named type inside t whose body is not the body
 // of the module's type definition of that name.
+// c06FailWhileTyping are modules whose translation fails in the middle of typing
+// an instruction or expression (after part of its operands were processed).
+var c06FailWhileTyping = []string{
+	"define void @r1({ i32, [8 x [8 x i8]] }* %p, i32 %n) {\n  %q = getelementptr { i32, [8 x [8 x i8]] }, { i32, [8 x [8 x i8]] }* %p, i32 0, i32 %n\n  ret void\n}\n",
+	"define void @r2(i32* %p) {\n  %q = getelementptr i32, i32* %p, i64 1, i64 2, i64 3\n  ret void\n}\n",
+	"@g = global { i32, [4 x i64] } zeroinitializer\n@h = global i64* getelementptr ({ i32, [4 x i64] }, { i32, [4 x i64] }* @g, i32 0, i32 7, i64 1)\n",
+	"define void @r3({ i32, { i8, i16 } } %a) {\n  %q = extractvalue { i32, { i8, i16 } } %a, 1, 5\n  ret void\n}\n",
+	"define void @r4(<4 x i32> %a, <2 x i32> %b) {\n  %q = icmp eq <4 x i32> %a, %b\n  %s = shufflevector <4 x i32> %a, <4 x i32> %a, <3 x i32> %q\n  ret void\n}\n",
+	"define void @r5(<4 x i32*> %p, <2 x i64> %i) {\n  %q = getelementptr i32, <4 x i32*> %p, <2 x i64> %i\n  %r = load i32, <4 x i32*> %q\n  ret void\n}\n",
+}
+
 func dishonestTypeName(m *ir.Module, t types.Type) string {
 	defs := map[string]types.Type{}
 	for _, d := range m.TypeDefs {
@@ -820,6 +838,68 @@ func c06BuildThenReread(r *fw.Rec) {
 		} else {
 			add("fcmp "+ts, "i1", func() value.Value { return b.NewFCmp(enum.FPredOLT, s, s) })
 			add("fcmp vector "+ts, fmt.Sprintf("<%d x i1>", 2+i), func() value.Value { return b.NewFCmp(enum.FPredUNE, v, v) })
+		}
+		// conversions, of scalars and of vectors (fixed and scalable): the result is
+		// the target type as given, not a part of it
+		n := uint64(2 + i)
+		vecOf := func(e types.Type, scalable bool) *types.VectorType {
+			vt := types.NewVector(n, e)
+			vt.Scalable = scalable
+			return vt
+		}
+		vs := func(e types.Type, scalable bool) string {
+			if scalable {
+				return fmt.Sprintf("<vscale x %d x %s>", n, e)
+			}
+			return fmt.Sprintf("<%d x %s>", n, e)
+		}
+		for _, scalable := range []bool{false, true} {
+			scalable := scalable
+			var src value.Value = v
+			if scalable {
+				src = constant.NewZeroInitializer(vecOf(t, true))
+			}
+			tag := ts
+			if scalable {
+				tag = "scalable " + ts
+			}
+			switch {
+			case isInt(t):
+				w := t.(*types.IntType).BitSize
+				wide, narrow := types.NewInt(w+7), types.I1
+				add("trunc vector "+tag, vs(narrow, scalable), func() value.Value { return b.NewTrunc(src, vecOf(narrow, scalable)) })
+				add("zext vector "+tag, vs(wide, scalable), func() value.Value { return b.NewZExt(src, vecOf(wide, scalable)) })
+				add("sext vector "+tag, vs(wide, scalable), func() value.Value { return b.NewSExt(src, vecOf(wide, scalable)) })
+				add("uitofp vector "+tag, vs(types.Half, scalable), func() value.Value { return b.NewUIToFP(src, vecOf(types.Half, scalable)) })
+				add("sitofp vector "+tag, vs(types.FP128, scalable), func() value.Value { return b.NewSIToFP(src, vecOf(types.FP128, scalable)) })
+				add("inttoptr vector "+tag, vs(types.I8Ptr, scalable), func() value.Value { return b.NewIntToPtr(src, vecOf(types.I8Ptr, scalable)) })
+				if !scalable {
+					add("trunc "+ts, "i1", func() value.Value { return b.NewTrunc(s, narrow) })
+					add("zext "+ts, wide.String(), func() value.Value { return b.NewZExt(s, wide) })
+					add("sext "+ts, wide.String(), func() value.Value { return b.NewSExt(s, wide) })
+					add("sitofp "+ts, "double", func() value.Value { return b.NewSIToFP(s, types.Double) })
+				}
+			case isFP(t):
+				add("fptoui vector "+tag, vs(types.I1, scalable), func() value.Value { return b.NewFPToUI(src, vecOf(types.I1, scalable)) })
+				add("fptosi vector "+tag, vs(types.I128, scalable), func() value.Value { return b.NewFPToSI(src, vecOf(types.I128, scalable)) })
+				add("fpext vector "+tag, vs(types.FP128, scalable), func() value.Value { return b.NewFPExt(src, vecOf(types.FP128, scalable)) })
+				add("fptrunc vector "+tag, vs(types.Half, scalable), func() value.Value { return b.NewFPTrunc(src, vecOf(types.Half, scalable)) })
+				if !scalable {
+					add("fptosi "+ts, "i8", func() value.Value { return b.NewFPToSI(s, types.I8) })
+					add("fpext "+ts, "fp128", func() value.Value { return b.NewFPExt(s, types.FP128) })
+					add("fptrunc "+ts, "half", func() value.Value { return b.NewFPTrunc(s, types.Half) })
+				}
+			default:
+				as3 := types.NewPointer(t.(*types.PointerType).ElemType)
+				as3.AddrSpace = 3
+				add("ptrtoint vector "+tag, vs(types.I64, scalable), func() value.Value { return b.NewPtrToInt(src, vecOf(types.I64, scalable)) })
+				add("addrspacecast vector "+tag, vs(as3, scalable), func() value.Value { return b.NewAddrSpaceCast(src, vecOf(as3, scalable)) })
+				add("bitcast vector "+tag, vs(types.I8Ptr, scalable), func() value.Value { return b.NewBitCast(src, vecOf(types.I8Ptr, scalable)) })
+				if !scalable {
+					add("ptrtoint "+ts, "i16", func() value.Value { return b.NewPtrToInt(s, types.I16) })
+					add("addrspacecast "+ts, as3.String(), func() value.Value { return b.NewAddrSpaceCast(s, as3) })
+				}
+			}
 		}
 		add("load "+ts, ts, func() value.Value { return b.NewLoad(t, p) })
 		add("alloca "+ts, ts+"*", func() value.Value { return b.NewAlloca(t) })
